@@ -162,7 +162,12 @@ var kFastaWrite = register(&Kind{Name: "fasta_write",
 	Project: func(out Val) Val { return L(joinChunks(out.At(0)), out.At(1)) },
 	Impl: func(in Val) Val {
 		name0, seq0 := in.At(0).Bytes(), in.At(1).Bytes()
-		fa := &fasta.Fasta{Name: slices.Clone(name0), Sequence: slices.Clone(seq0)}
+		// Name and Sequence are carved from one buffer, Name with spare capacity that
+		// runs over the sequence and a guard: a writer that appends to a field (instead
+		// of copying) clobbers its neighbour
+		carved := append(append(append([]byte{}, name0...), seq0...), "GUARDguard"...)
+		carved0 := slices.Clone(carved)
+		fa := &fasta.Fasta{Name: carved[:len(name0)], Sequence: carved[len(name0) : len(name0)+len(seq0)]}
 		w := &callRecorder{}
 		if err := fa.Write(w); err != nil {
 			return L(I(3), S("Write to a writer that never fails returned an error"))
@@ -185,8 +190,8 @@ var kFastaWrite = register(&Kind{Name: "fasta_write",
 				m = vOk(B(b))
 			}
 		}()
-		if !bytes.Equal(fa.Name, name0) || !bytes.Equal(fa.Sequence, seq0) {
-			return L(I(3), S("record modified by Write/MarshalText"))
+		if !bytes.Equal(fa.Name, name0) || !bytes.Equal(fa.Sequence, seq0) || !bytes.Equal(carved, carved0) {
+			return L(I(3), S("record (or memory next to its fields) modified by Write/MarshalText"))
 		}
 		return L(BL(w.calls), m)
 	},
